@@ -366,6 +366,399 @@ theorem idempotent_partial (p : List Step) (hs : safe p [] = true) (h : Heap) (e
     run p { heap := s1.heap.take h.length, env := env } = some s1 := by
   rw [frame p hs h env s1 hr]; exact hr
 
+/-! ### idempotence in full: the garbage of the first call is carried along (simulation under renaming) -/
+
+/-- buffer ids when `g` foreign buffers sit between the caller's `n` buffers and the routine's own allocations -/
+def shiftBuf (n g b : Nat) : Nat := if b < n then b else b + g
+def shiftRef (n g : Nat) (r : Ref) : Ref := { r with buf := shiftBuf n g r.buf }
+def shiftEnv (n g : Nat) (e : Env) : Env := e.map (Option.map (shiftRef n g))
+
+/-- the two runs are in step: same caller buffers `a`, same own buffers `e`, the second run additionally carries the
+untouched foreign buffers `G`; references differ by the renaming only -/
+def Sim (n : Nat) (G : Heap) (s1 s2 : State) : Prop :=
+  ∃ a e, a.length = n ∧ s1.heap = a ++ e ∧ s2.heap = a ++ (G ++ e) ∧ s2.env = shiftEnv n G.length s1.env
+
+theorem getElem?_shift (a G e : Heap) (b : Nat) :
+    (a ++ (G ++ e))[shiftBuf a.length G.length b]? = (a ++ e)[b]? := by
+  unfold shiftBuf
+  by_cases hb : b < a.length
+  · rw [if_pos hb, List.getElem?_append_left hb, List.getElem?_append_left hb]
+  · rw [if_neg hb, List.getElem?_append_right (by omega), List.getElem?_append_right (by omega),
+      List.getElem?_append_right (by omega)]
+    congr 1; omega
+
+theorem read_shift (a G e : Heap) (r : Ref) :
+    read (a ++ (G ++ e)) (shiftRef a.length G.length r) = read (a ++ e) r := by
+  simp only [read, shiftRef, getElem?_shift]
+
+theorem isWritable_shift (a G e : Heap) (r : Ref) :
+    isWritable (a ++ (G ++ e)) (shiftRef a.length G.length r) = isWritable (a ++ e) r := by
+  simp only [isWritable, shiftRef, getElem?_shift]
+
+theorem Env.get_shift (n g : Nat) (e : Env) (v : Nat) : (shiftEnv n g e).get v = (e.get v).map (shiftRef n g) := by
+  simp only [Env.get, shiftEnv, List.getElem?_map]
+  cases e[v]? with
+  | none => rfl
+  | some o => cases o <;> rfl
+
+theorem readAll_shift (a G e : Heap) (env : Env) (vs : List Nat) :
+    readAll (a ++ (G ++ e)) (shiftEnv a.length G.length env) vs = readAll (a ++ e) env vs := by
+  unfold readAll
+  apply List.map_congr_left
+  intro v _
+  rw [Env.get_shift]
+  cases env.get v with
+  | none => rfl
+  | some r => simp [read_shift]
+
+theorem Env.set_shift (n g : Nat) (e : Env) (v : Nat) (r : Ref) :
+    shiftEnv n g (e.set v r) = (shiftEnv n g e).set v (shiftRef n g r) := by
+  induction e generalizing v with
+  | nil =>
+    induction v with
+    | zero => rfl
+    | succ v ih => simpa [Env.set, shiftEnv] using ih
+  | cons x e ih =>
+    cases v with
+    | zero => simp [Env.set, shiftEnv]
+    | succ v => simpa [Env.set, shiftEnv] using ih v
+
+theorem updateBuf_append (x y : Heap) (b : Nat) (f : Buf → Buf) :
+    updateBuf (x ++ y) b f = if b < x.length then updateBuf x b f ++ y else x ++ updateBuf y (b - x.length) f := by
+  induction x generalizing b with
+  | nil => simp
+  | cons c x ih =>
+    cases b with
+    | zero => simp [updateBuf]
+    | succ b =>
+      simp only [List.cons_append, updateBuf, ih, List.length_cons, Nat.add_lt_add_iff_right, Nat.add_sub_add_right]
+      split <;> rfl
+
+/-- an in-place write hits corresponding buffers in both runs -/
+theorem writeRef_shift (a G e : Heap) (r : Ref) (vals : Bytes) :
+    ∃ a' e', a'.length = a.length ∧ writeRef (a ++ e) r vals = a' ++ e' ∧
+      writeRef (a ++ (G ++ e)) (shiftRef a.length G.length r) vals = a' ++ (G ++ e') := by
+  simp only [writeRef, shiftRef, shiftBuf]
+  generalize (fun (b : Buf) => ({ b with data := writeData b.data r.idx vals } : Buf)) = F
+  by_cases hb : r.buf < a.length
+  · refine ⟨updateBuf a r.buf F, e, updateBuf_length _ _ _, ?_, ?_⟩
+    · rw [updateBuf_append, if_pos hb]
+    · rw [if_pos hb, updateBuf_append, if_pos hb]
+  · refine ⟨a, updateBuf e (r.buf - a.length) F, rfl, ?_, ?_⟩
+    · rw [updateBuf_append, if_neg hb]
+    · rw [if_neg hb, updateBuf_append, if_neg (by omega), updateBuf_append, if_neg (by omega)]
+      congr 3; omega
+
+theorem step_sim (n : Nat) (G : Heap) (st : Step) (s1 s2 s1' : State) (hsim : Sim n G s1 s2)
+    (h1 : step s1 st = some s1') : ∃ s2', step s2 st = some s2' ∧ Sim n G s1' s2' := by
+  obtain ⟨a, e, ha, hh1, hh2, henv⟩ := hsim
+  obtain ⟨heap1, env1⟩ := s1
+  obtain ⟨heap2, env2⟩ := s2
+  simp only at hh1 hh2 henv
+  subst ha hh1 hh2 henv
+  cases st with
+  | alloc dst srcs f =>
+    simp only [step, Option.some.injEq] at h1 ⊢
+    subst h1
+    refine ⟨_, rfl, a, e ++ [{ data := f (readAll (a ++ e) env1 srcs), writable := true }], rfl, by simp, ?_, ?_⟩
+    · simp only [readAll_shift]; simp
+    · simp only [readAll_shift, Env.set_shift]
+      congr 1
+      simp only [shiftRef, shiftBuf, List.length_append]
+      rw [if_neg (by omega)]
+      congr 1; omega
+  | view dst src sel =>
+    simp only [step] at h1 ⊢
+    cases hg : Env.get env1 src with
+    | none => simp only [hg] at h1; cases h1
+    | some r =>
+      simp only [hg, Option.some.injEq] at h1
+      subst h1
+      simp only [Env.get_shift, hg, Option.map_some, read_shift]
+      refine ⟨_, rfl, a, e, rfl, rfl, rfl, ?_⟩
+      simp only [Env.set_shift]
+      rfl
+  | write v srcs f =>
+    simp only [step] at h1 ⊢
+    cases hg : Env.get env1 v with
+    | none => simp only [hg] at h1; cases h1
+    | some r =>
+      simp only [hg] at h1
+      simp only [Env.get_shift, hg, Option.map_some, isWritable_shift, read_shift, readAll_shift]
+      by_cases hw : isWritable (a ++ e) r = true
+      · simp only [hw, if_true, Option.some.injEq] at h1 ⊢
+        subst h1
+        obtain ⟨a', e', hl, hw1, hw2⟩ := writeRef_shift a G e r (f (read (a ++ e) r) (readAll (a ++ e) env1 srcs))
+        exact ⟨_, rfl, a', e', hl, hw1, hw2, rfl⟩
+      · simp only [hw, Bool.false_eq_true, if_false] at h1
+        cases h1
+  | tryWrite v srcs f =>
+    simp only [step] at h1 ⊢
+    cases hg : Env.get env1 v with
+    | none => simp only [hg] at h1; cases h1
+    | some r =>
+      simp only [hg] at h1
+      simp only [Env.get_shift, hg, Option.map_some, isWritable_shift, read_shift, readAll_shift]
+      by_cases hw : isWritable (a ++ e) r = true
+      · simp only [hw, if_true, Option.some.injEq] at h1 ⊢
+        subst h1
+        obtain ⟨a', e', hl, hw1, hw2⟩ := writeRef_shift a G e r (f (read (a ++ e) r) (readAll (a ++ e) env1 srcs))
+        exact ⟨_, rfl, a', e', hl, hw1, hw2, rfl⟩
+      · simp only [hw, Bool.false_eq_true, if_false, Option.some.injEq] at h1 ⊢
+        subst h1
+        -- the private copy is appended in both runs and written there
+        have hr' : (⟨(a ++ (G ++ e)).length, List.range (read (a ++ e) r).length⟩ : Ref)
+            = shiftRef a.length G.length ⟨(a ++ e).length, List.range (read (a ++ e) r).length⟩ := by
+          simp only [shiftRef, shiftBuf, List.length_append]
+          rw [if_neg (by omega)]
+          congr 1; omega
+        obtain ⟨a', e', hl, hw1, hw2⟩ := writeRef_shift a G (e ++ [{ data := read (a ++ e) r, writable := true }])
+          ⟨(a ++ e).length, List.range (read (a ++ e) r).length⟩ (f (read (a ++ e) r) (readAll (a ++ e) env1 srcs))
+        refine ⟨_, rfl, a', e', hl, ?_, ?_, ?_⟩
+        · simp only [← hw1, List.append_assoc]
+        · simp only [hr', ← hw2, List.append_assoc]
+        · simp only [hr', Env.set_shift]
+
+theorem run_sim (n : Nat) (G : Heap) (p : List Step) : ∀ (s1 s2 s1' : State), Sim n G s1 s2 → run p s1 = some s1' →
+    ∃ s2', run p s2 = some s2' ∧ Sim n G s1' s2' := by
+  induction p with
+  | nil => intro s1 s2 s1' hsim h; simp only [run, Option.some.injEq] at h; subst h; exact ⟨s2, rfl, hsim⟩
+  | cons st p ih =>
+    intro s1 s2 s1' hsim h
+    simp only [run] at h
+    split at h
+    · cases h
+    · rename_i sm hsm
+      obtain ⟨sm2, hst2, hsim2⟩ := step_sim n G st s1 s2 sm hsim hsm
+      obtain ⟨s2', hr2, hsim'⟩ := ih sm sm2 s1' hsim2 h
+      exact ⟨s2', by simp only [run, hst2, hr2], hsim'⟩
+
+/-- every variable reads the same in two runs that are in step -/
+theorem sim_reads (n : Nat) (G : Heap) (s1 s2 : State) (hsim : Sim n G s1 s2) (v : Nat) :
+    (s2.env.get v).map (read s2.heap) = (s1.env.get v).map (read s1.heap) := by
+  obtain ⟨a, e, ha, hh1, hh2, henv⟩ := hsim
+  subst ha
+  rw [henv, Env.get_shift, hh1, hh2]
+  cases s1.env.get v with
+  | none => rfl
+  | some r => simp [read_shift]
+
+/-- **idempotence** (no truncation): after a call of a routine that writes only into its own buffers, a SECOND call with
+the same argument bindings — on the heap the first call left behind, results and temporaries of the first call
+included — succeeds and every variable (the result in particular) reads exactly as after the first call.
+`henv`: the arguments refer to buffers that exist. -/
+theorem idempotent (p : List Step) (hs : safe p [] = true) (h : Heap) (env : Env) (s1 : State)
+    (hr : run p { heap := h, env := env } = some s1) (henv : ∀ v r, env.get v = some r → r.buf < h.length) :
+    ∃ s2, run p { heap := s1.heap, env := env } = some s2 ∧
+      ∀ v, (s2.env.get v).map (read s2.heap) = (s1.env.get v).map (read s1.heap) := by
+  have hf := frame p hs h env s1 hr
+  obtain ⟨G, hG⟩ : ∃ G, s1.heap = h ++ G := ⟨s1.heap.drop h.length, by
+    conv => lhs; rw [← List.take_append_drop h.length s1.heap, hf]⟩
+  have henv' : shiftEnv h.length G.length env = env := by
+    unfold shiftEnv
+    apply List.ext_getElem?
+    intro i
+    rw [List.getElem?_map]
+    cases hi : env[i]? with
+    | none => rfl
+    | some o =>
+      cases o with
+      | none => rfl
+      | some r =>
+        have := henv i r (by simp [Env.get, hi])
+        simp [shiftRef, shiftBuf, this]
+  have hsim : Sim h.length G { heap := h, env := env } { heap := s1.heap, env := env } :=
+    ⟨h, [], rfl, by simp, by simp [hG], henv'.symm⟩
+  obtain ⟨s2, hr2, hsim2⟩ := run_sim h.length G p _ _ s1 hsim hr
+  exact ⟨s2, hr2, sim_reads h.length G s1 s2 hsim2⟩
+
+/-! ### the heap primitives obey the standard get/set laws (so `read`/`writeRef` are not right only by definition) -/
+
+theorem setAt_length (d : Bytes) (i v : Nat) : (setAt d i v).length = d.length := by
+  induction d generalizing i with
+  | nil => rfl
+  | cons x xs ih => cases i <;> simp [setAt, ih]
+
+theorem setAt_getElem? (d : Bytes) (i v j : Nat) :
+    (setAt d i v)[j]? = if j = i ∧ i < d.length then some v else d[j]? := by
+  induction d generalizing i j with
+  | nil => simp [setAt]
+  | cons x xs ih =>
+    cases i with
+    | zero => cases j <;> simp [setAt]
+    | succ i =>
+      cases j with
+      | zero => simp [setAt]
+      | succ j => simp [setAt, ih]
+
+theorem writeData_length (d : Bytes) (idx : List Nat) (vals : Bytes) : (writeData d idx vals).length = d.length := by
+  induction idx generalizing d vals with
+  | nil => cases vals <;> rfl
+  | cons i is ih =>
+    cases vals with
+    | nil => rfl
+    | cons v vs => simp [writeData, ih, setAt_length]
+
+/-- positions that are not written keep their value -/
+theorem writeData_getElem?_not_mem (d : Bytes) (idx : List Nat) (vals : Bytes) (j : Nat) (hj : j ∉ idx) :
+    (writeData d idx vals)[j]? = d[j]? := by
+  induction idx generalizing d vals with
+  | nil => cases vals <;> rfl
+  | cons i is ih =>
+    cases vals with
+    | nil => rfl
+    | cons v vs =>
+      simp only [List.mem_cons, not_or] at hj
+      simp only [writeData]
+      rw [ih _ _ hj.2, setAt_getElem?, if_neg (fun h => hj.1 h.1)]
+
+/-- get-after-set: position `idx[k]` holds `vals[k]` (distinct, in-range positions) -/
+theorem writeData_getElem?_mem (d : Bytes) (idx : List Nat) (vals : Bytes) (hnd : idx.Nodup)
+    (hin : ∀ i ∈ idx, i < d.length) (hl : vals.length = idx.length) (k : Nat) (hk : k < idx.length) :
+    (writeData d idx vals)[idx[k]]? = vals[k]? := by
+  induction idx generalizing d vals k with
+  | nil => simp at hk
+  | cons i is ih =>
+    cases vals with
+    | nil => simp at hl
+    | cons v vs =>
+      simp only [List.nodup_cons] at hnd
+      simp only [writeData]
+      cases k with
+      | zero =>
+        simp only [List.getElem_cons_zero, List.getElem?_cons_zero]
+        rw [writeData_getElem?_not_mem _ _ _ _ hnd.1, setAt_getElem?, if_pos ⟨rfl, hin i (by simp)⟩]
+      | succ k =>
+        simp only [List.getElem_cons_succ, List.getElem?_cons_succ]
+        exact ih (setAt d i v) vs hnd.2 (fun j hj => by rw [setAt_length]; exact hin j (by simp [hj]))
+          (by simpa using hl) k (by simpa using hk)
+
+theorem updateBuf_getElem?_same (h : Heap) (i : Nat) (f : Buf → Buf) : (updateBuf h i f)[i]? = (h[i]?).map f := by
+  induction h generalizing i with
+  | nil => rfl
+  | cons b h ih => cases i <;> simp [updateBuf, ih]
+
+/-- **get-after-set**: what is written through a reference is read back through it -/
+theorem read_writeRef_same (h : Heap) (r : Ref) (vals : Bytes) (b : Buf) (hb : h[r.buf]? = some b) (hnd : r.idx.Nodup)
+    (hin : ∀ i ∈ r.idx, i < b.data.length) (hl : vals.length = r.idx.length) : read (writeRef h r vals) r = vals := by
+  apply List.ext_getElem?
+  intro k
+  simp only [read, writeRef, updateBuf_getElem?_same, hb, Option.map_some, List.getElem?_map]
+  by_cases hk : k < r.idx.length
+  · rw [List.getElem?_eq_getElem hk]
+    simp only [Option.map_some, Option.join_some]
+    rw [writeData_getElem?_mem _ _ _ hnd hin hl k hk]
+    cases hv : vals[k]? with
+    | none => rw [List.getElem?_eq_none_iff] at hv; omega
+    | some x => rfl
+  · rw [List.getElem?_eq_none (by omega), List.getElem?_eq_none (by omega)]; rfl
+
+/-- a write through one buffer is invisible through references into any other buffer -/
+theorem read_writeRef_other (h : Heap) (r r' : Ref) (vals : Bytes) (hne : r'.buf ≠ r.buf) :
+    read (writeRef h r vals) r' = read h r' := by
+  simp only [read, writeRef, updateBuf_get_other _ _ _ _ hne]
+
+theorem read_append_left (h x : Heap) (r : Ref) (hr : r.buf < h.length) : read (h ++ x) r = read h r := by
+  simp only [read, List.getElem?_append_left hr]
+
+/-- a freshly allocated array reads as the values it was created from -/
+theorem read_new (h : Heap) (vals : Bytes) :
+    read (h ++ [{ data := vals, writable := true }]) { buf := h.length, idx := List.range vals.length } = vals := by
+  apply List.ext_getElem?
+  intro k
+  simp only [read, List.getElem?_map, List.getElem?_append_right (Nat.le_refl _), Nat.sub_self, List.getElem?_cons_zero,
+    Option.map_some, Option.join_some]
+  by_cases hk : k < vals.length
+  · simp [List.getElem?_range hk, List.getElem?_eq_getElem hk]
+  · rw [List.getElem?_eq_none (by simpa using hk), List.getElem?_eq_none (by omega)]; rfl
+
+/-! ### fresh row selections (`col[1:4]`) and memoised columns: the two history-dependent classes -/
+
+/-- an allocation binds its variable to a new writable buffer that reads as the computed values -/
+theorem step_alloc_self (s : State) (dst : Nat) (srcs : List Nat) (f : List Bytes → Bytes) :
+    ∃ s' r, step s (.alloc dst srcs f) = some s' ∧ s'.env.get dst = some r ∧ r.buf = s.heap.length ∧
+      read s'.heap r = f (readAll s.heap s.env srcs) ∧ isWritable s'.heap r = true ∧
+      s'.heap.length = s.heap.length + 1 ∧ s'.heap.take s.heap.length = s.heap ∧
+      ∀ v, v ≠ dst → s'.env.get v = s.env.get v := by
+  refine ⟨_, _, rfl, Env.get_set_same _ _ _, rfl, read_new _ _, by simp [isWritable], by simp, by simp, ?_⟩
+  intro v hv
+  exact Env.get_set_other _ _ _ _ hv
+
+/-- references into existing buffers read the same after an allocation -/
+theorem read_after_alloc (s s' : State) (dst : Nat) (srcs : List Nat) (f : List Bytes → Bytes) (r : Ref)
+    (hs : step s (.alloc dst srcs f) = some s') (hb : r.buf < s.heap.length) : read s'.heap r = read s.heap r := by
+  simp only [step, Option.some.injEq] at hs
+  subst hs
+  exact read_append_left _ _ _ hb
+
+/-- an in-place write through `w` leaves every reference into another buffer reading the same, and rebinds nothing -/
+theorem step_write_other (s : State) (w : Nat) (srcs : List Nat) (f : Bytes → List Bytes → Bytes) (rw : Ref)
+    (hw : s.env.get w = some rw) (hwr : isWritable s.heap rw = true) :
+    ∃ s', step s (.write w srcs f) = some s' ∧ s'.env = s.env ∧ s'.heap.length = s.heap.length ∧
+      ∀ r : Ref, r.buf ≠ rw.buf → read s'.heap r = read s.heap r := by
+  refine ⟨{ s with heap := writeRef s.heap rw (f (read s.heap rw) (readAll s.heap s.env srcs)) },
+    by simp only [step, hw, hwr, if_true], rfl, writeRef_length _ _ _, ?_⟩
+  intro r hne
+  exact read_writeRef_other _ _ _ _ hne
+
+/-- `str_to_int` on a fresh, view-shaped selection: no caller buffer changes AND the caller's selection object (which the call
+materialises) still reads exactly what it read before -/
+theorem frame_fresh_selection (value : List Bytes → Bytes) (h : Heap) (env : Env) (r0 : Ref) (s' : State)
+    (h0 : env.get 0 = some r0) (hr : run (strToIntFresh value) { heap := h, env := env } = some s') :
+    s'.heap.take h.length = h ∧ (s'.env.get 0).map (read s'.heap) = some (read h r0) := by
+  refine ⟨frame _ rfl h env s' hr, ?_⟩
+  obtain ⟨s1, rA, h1, g1, b1, rd1, _, l1, _, _⟩ := step_alloc_self { heap := h, env := env } 0 [0] (fun a => a.headD [])
+  have rd1' : read s1.heap rA = read h r0 := by
+    rw [rd1]; simp [readAll, h0]
+  obtain ⟨s2, rB, h2, g2, b2, _, w2, l2, _, o2⟩ := step_alloc_self s1 2 [0] (fun a => a.headD [])
+  have g2A : s2.env.get 0 = some rA := by rw [o2 0 (by decide)]; exact g1
+  have rd2 : read s2.heap rA = read h r0 := by
+    rw [read_after_alloc s1 s2 2 [0] _ rA h2 (by rw [b1, l1]; simp), rd1']
+  obtain ⟨s3, h3, e3, l3, o3⟩ := step_write_other s2 2 [1] (fun cur a => zeroSigns cur (a.headD [])) rB g2 w2
+  have rd3 : read s3.heap rA = read h r0 := by
+    rw [o3 rA (by rw [b1, b2, l1]; simp), rd2]
+  obtain ⟨s4, rC, h4, _, _, _, _, _, _, o4⟩ := step_alloc_self s3 3 [2, 1, 0] value
+  have rd4 : read s4.heap rA = read h r0 := by
+    rw [read_after_alloc s3 s4 3 _ _ rA h4 (by rw [l3, l2, b1, l1]; simp; omega), rd3]
+  have g4 : s4.env.get 0 = some rA := by rw [o4 0 (by decide), e3]; exact g2A
+  have hrun : run (strToIntFresh value) { heap := h, env := env } = some s4 := by
+    simp only [strToIntFresh, run, h1, h2, h3, h4]
+  rw [hrun] at hr
+  cases hr
+  rw [g4]; simp [rd4]
+
+/-- if `copy()` returns the gathered data itself, the signs are zeroed in the caller's selection object:
+a selection reading "-12" reads "012" after the call (and a second call parses 12 instead of -12) -/
+theorem strToIntFreshAlias_unsound :
+    (run (strToIntFreshAlias (fun _ => [])) { heap := [⟨[55, 45, 49, 50, 55], true⟩, ⟨[3], true⟩], env := [some ⟨0, [1, 2, 3]⟩, some ⟨1, [0]⟩] }).map (fun s => ((s.env.get 0).map (read s.heap), s.heap.take 1))
+      = some (some [48, 49, 50], [⟨[55, 45, 49, 50, 55], true⟩]) := by decide
+
+/-- VCF positions: `val -= 1` is applied to the freshly parsed column, never to a caller buffer -/
+theorem frame_vcf_position (parse : List Bytes → Bytes) (h : Heap) (env : Env) (s' : State)
+    (hr : run (vcfPosition parse) { heap := h, env := env } = some s') : s'.heap.take h.length = h :=
+  frame _ rfl h env s' hr
+
+/-- with a per-buffer memo of parsed columns the same `val -= 1` hits the memo: a stored POS 15 reads 14, then 13 -/
+theorem vcfPositionMemo_unsound :
+    safe vcfPositionMemo [] = false ∧
+    (run vcfPositionMemo { heap := [⟨[0], true⟩, ⟨[15, 30], true⟩], env := [some ⟨0, [0]⟩, some ⟨1, [0, 1]⟩] }).map (·.heap)
+      = some [⟨[0], true⟩, ⟨[14, 29], true⟩] ∧
+    ((run vcfPositionMemo { heap := [⟨[0], true⟩, ⟨[15, 30], true⟩], env := [some ⟨0, [0]⟩, some ⟨1, [0, 1]⟩] }).bind
+        (fun s => run vcfPositionMemo { heap := s.heap, env := [some ⟨0, [0]⟩, some ⟨1, [0, 1]⟩] })).map (·.heap)
+      = some [⟨[0], true⟩, ⟨[13, 28], true⟩] := by decide
+
+/-- corollary of `frame` in terms of what the caller can observe: every reference the caller holds into a buffer that
+existed before the call reads the same afterwards -/
+theorem frame_reads (p : List Step) (hs : safe p [] = true) (h : Heap) (env : Env) (s' : State)
+    (hr : run p { heap := h, env := env } = some s') (r : Ref) (hb : r.buf < h.length) : read s'.heap r = read h r := by
+  have hf := frame p hs h env s' hr
+  have : s'.heap[r.buf]? = h[r.buf]? := by
+    conv => rhs; rw [← hf]
+    rw [List.getElem?_take]; simp [hb]
+  simp only [read, this]
+
+example : ∃ s2, run (strToInt (fun a => a.headD [])) { heap := [⟨[45, 49], true⟩, ⟨[2], true⟩, ⟨[48, 49], true⟩, ⟨[48, 49], true⟩], env := [some ⟨0, [0, 1]⟩, some ⟨1, [0]⟩] } = some s2 := ⟨_, rfl⟩
+
 /-! ### Gen obligation: the modelled write sites, probed on the running code this run -/
 
 /-- every probed site leaves its argument unchanged on the running code (so the `frame_*` instances,
